@@ -745,6 +745,8 @@ class ExecMixin:
             return self.keys_of('mem:' + self.skey(et), et)
         if e.startswith('key:'):
             return {e[4:]}
+        if e.split('[')[0] in self.c.ghostmaps or e in self.c.ghostglobals:
+            return {'ghost:' + e.split('[')[0]}
         parts = e.split('.')
         if len(parts) < 2: raise Unsupported('bad modifies entry %r' % entry)
         root = parts[0]
